@@ -91,11 +91,19 @@ type HookEvent struct {
 	G    int
 }
 
+// OnHook lets a harness run code in the goroutine that enters a hooked
+// function (used only to give each in-process "server" its own environment,
+// e.g. host name, as separate machines have).
+var OnHook = map[string]func(recv interface{}){}
+
 // Hook records the entry of a hooked function.
 func Hook(name string, recv interface{}) {
 	w := W
 	if w == nil {
 		return
+	}
+	if f := OnHook[name]; f != nil {
+		f(recv)
 	}
 	g := -1
 	if w.cur != nil {
